@@ -282,4 +282,11 @@ def s_next_map(a, b, v):
     first = next((k for k in (3, 5, 7) if a[0] + k > 100), -1)
     second = next(x for x in (4, 6) if x > 4)
     m = list(map(lambda x, y: x * 10 + y, [1, 2, 3], [7, 8, 9]))
-    return np.array([first, second] + m)
+    it = map(lambda x: x + v, [10, 20, 30])
+    head = next(it)
+    rest = 0
+    for x in it:
+        rest = rest * 100 + x
+    g = (k * 2 for k in (5, 6, 7))
+    h = next(g)
+    return np.array([first, second] + m + [head, rest, h, sum(g)])
